@@ -43,13 +43,13 @@ class Path(object):
         if not since:
             return False
         bare = s.rstrip("'")
-        has_call = re.search(r'[\w>]\(', bare) is not None
         roots = set(re.findall(r'(?<![\w.:$])((?:self|[a-z_$][\w$]*)(?:\.[a-z_]\w*)?)(?![\w(:])', bare))
         for e in since:
-            if has_call and (not roots or any(r_ in e for r_ in roots)):
-                return True  # the tested expression contains a call and something touching its operands happened: it is evaluated anew
-            if (' = ' in e or ' += ' in e or ' -= ' in e) and any(e.startswith(r_) or e.startswith(r_.split('.')[0] + '.') or e.startswith(r_.split('.')[0] + ' ') for r_ in roots):
-                return True  # a place it reads was written
+            if re.search(r'[\w>]\(', e) and ' = ' not in e and e in bare:
+                return True  # a call the expression contains was made again: the expression was evaluated anew (a value bound once is not)
+            if (' = ' in e or ' += ' in e or ' -= ' in e) and any(e.startswith(r_) or e.startswith(r_.split('.')[0] + '.') or e.startswith(r_.split('.')[0] + ' ') for r_ in roots) \
+                    and not re.search(r'[\w>]\(', bare.split(' ')[0]):
+                return True  # a place the expression reads was written (an expression that starts with a call is the value of that call)
         return False
 
     def cond_strs(self):
